@@ -43,6 +43,7 @@ def gen_config(rng, tier, flavor="db"):
         "adv_rate": rng.choice([0.0, 0.3, 1.0]),
         "unsorted_start": rng.random() < 0.3,
         "dup_haplotype": rng.random() < 0.06,
+        "refit": rng.random() < 0.25,
     }
     if space < 2:
         cfg["n_alleles"][0] = 2
@@ -204,6 +205,18 @@ class CallSim:
                     steps=cfg["steps"], chains=cfg["chains"], random_seed=11, step_type=cfg["step_type"])
                 init = None if cfg["initial"] == "greedy" else self.start_state(0)
                 trace = model.fit(self.reads, read_counts=self.counts, initial=init)
+                if cfg.get("refit"):
+                    # the same model object fitted again to other reads: nothing (caches, state) may survive
+                    cfg2 = dict(cfg, data_seed=cfg["data_seed"] + 1)
+                    _, reads2, counts2, _, _ = gen_instance(cfg2)
+                    if reads2.shape[1:] == self.reads.shape[1:]:
+                        self.reads, self.counts = reads2, counts2
+                        self.reads_l, self.counts_l = reads2.tolist(), [int(c) for c in counts2]
+                        self._lord.clear()
+                        self.seen.clear()
+                        del self.history[:]
+                        trace = model.fit(self.reads, read_counts=self.counts, initial=init)
+                        self.ctx.counters.inc("refit_same_model")
                 self.result = ("fit", trace)
                 # what fit() returns must be the states the sampler held (every chain, every step)
                 G = np.asarray(trace.genotypes)
